@@ -29,9 +29,35 @@ def witness_verdict(case, out):
     return "ok", None
 
 
+def masked(case, out, handle):
+    ops = [l for l in case.split("\n") if not l.startswith("keytab")]
+    return [("*" if (l.split()[0] in ("get", "keys") and l.split()[1] == str(handle)) else r) for l, r in zip(ops, out)]
+
+
+def explained_by_known(case, out, kind):
+    """narrow signatures of D9/D10 for an un-paused race: ONLY the reads of the snapshot begun inside the concurrent group
+    (handle 3) deviate from a sequential order, every other result and the final state match it, and those reads take, per
+    key, a value that some sequential order gives (D9: mixed old/new of one commit) or are NotFound / a later value (D10)"""
+    if "begin" not in kind:
+        return None
+    alts = PC.all_sequential_outputs(case)
+    m = masked(case, out, 3)
+    cands = [a for a in alts if masked(case, a, 3) == m]
+    if not cands:
+        return None
+    ops = [l for l in case.split("\n") if not l.startswith("keytab")]
+    idx = [i for i, l in enumerate(ops) if l.split()[0] in ("get", "keys") and l.split()[1] == "3"]
+    per_op_ok = all(any(a[i] == out[i] for a in alts) for i in idx)
+    if "commit" in kind and per_op_ok:
+        return "D9"
+    if "gc" in kind and all(out[i] == "err NotFound" or out[i].startswith(("val ", "keys")) for i in idx):
+        return "D10"
+    return None
+
+
 def gen_case(rng, cid):
     nkeys = rng.randint(2, 3)
-    keys = sorted(rng.sample([b"a", b"b", b"c", b"d"], nkeys))
+    keys = sorted(rng.sample([b"a", b"b", b"c", b"d"], nkeys)) + [b"e"]      # the last key is created only after the snapshots
     ls = ["case %s roots=1" % cid, "keytab " + " ".join(k.hex() for k in keys)]
     v = 0
     for k in range(1, nkeys + 1):
@@ -50,11 +76,11 @@ def gen_case(rng, cid):
     ls.append("par " + " || ".join(groups))
     probe = []
     for h in ((2, 3) if "begin" in kind else (2,)):      # handle 3 exists only if the group contains a Begin
-        probe += ["get %d %d g" % (h, k) for k in range(1, nkeys + 1)]
-    probe += ["get 0 %d g" % k for k in range(1, nkeys + 1)]
-    # re-read after more activity: repeatable
-    v += 1
-    ls += probe + ["set 0 1 %d 6 s" % v, "gc"] + probe
+        probe += ["get %d %d g" % (h, k) for k in range(1, nkeys + 2)] + ["keys %d" % h]
+    probe += ["get 0 %d g" % k for k in range(1, nkeys + 2)] + ["keys 0"]
+    # re-read after more activity (an overwrite, a new key, a deletion, a collection): repeatable, in Get and in GetKeys
+    v += 2
+    ls += probe + ["set 0 1 %d 6 s" % (v - 1), "set 0 %d %d 2 s" % (nkeys + 1, v), "del 0 2", "gc"] + probe
     ls.append("end")
     return "\n".join(ls), kind
 
@@ -93,7 +119,7 @@ def run(rep):
         perm = PC.match_sequential(c, o)
         if perm is None:
             unmatched += 1
-            sig = "D9" if ("begin" in kind and "commit" in kind) else "D10" if ("begin" in kind and "gc" in kind) else None
+            sig = explained_by_known(c, o, kind)
             if sig in known:
                 rep.known_finding("%s: %s (hit by an un-paused race: case %s)" % (sig, known[sig]["what"], c.split("\n")[0]))
             else:
